@@ -348,12 +348,13 @@ def getPtr : Ptr → J → Except Err J
 
 /-! ### `_resolve_json_pointers` (jsontools.py:124-184) -/
 
-/-- the `keys_and_docs` candidates of one document: Mapping → items, Sequence → `str(i)`
-(a Python `str` is a `Sequence`, so its characters are enumerated as well) -/
+/-- the `keys_and_docs` candidates of one document (jsontools.py:167-176): Mapping → items,
+`Sequence and not (str, bytes)` → `str(i)`.  Since commit 33969c0 a Python `str` (a
+`Sequence` as well) has no candidates: a pattern does not descend into string values.
+(The rule before that commit is `Spec.childrenOfOld`.) -/
 def childrenOf : J → List (String × J)
   | .obj kvs => kvs
   | .arr xs => xs.zipIdx.map (fun (v, i) => (idxKey i, v))
-  | .str s => (strChars s).zipIdx.map (fun (v, i) => (idxKey i, v))
   | _ => []
 
 /-- one iteration of `for part in parts` -/
@@ -392,7 +393,8 @@ def ensure : Ptr → J → J
 /-! ### in-place updates through `to_last` -/
 
 /-- Walk `parts[:-1]`, apply `fn parent last`, rebuild the document.  The error of a
-failed step is `walk`'s.  A Python `str` met on the way is immutable: every `fn`
+failed step is `walk`'s.  A Python `str` met on the way (a concrete pointer may still
+walk into one: `jsonpointer` indexes any `Sequence`) is immutable: every `fn`
 modelled here either raises below it or leaves it as it is (`popLast`), so the
 document is returned unchanged when the inner call succeeds. -/
 def atParent (fn : J → String → Except Err J) : Ptr → J → Except Err J
